@@ -152,7 +152,10 @@ def cases(chunk):
             idx += 1
             if idx % chunk["parts"] != chunk["part"]:
                 continue
-            yield {"op": op, "pattern": pname, "times": times, "rs": rng.randrange(10 ** 9)}
+            c = {"op": op, "pattern": pname, "times": times, "rs": rng.randrange(10 ** 9)}
+            if chunk.get("scale"):
+                c["limit_x"] = 3
+            yield c
 
 
 # --------------------------------------------------------------------------
